@@ -230,6 +230,8 @@ class Exec(EvalMixin, CallMixin):
                 name, src = e if isinstance(e, tuple) else (str(i), e)
                 f = self.formula(src, s, pcx, env, pol=1)
                 self.oblige("post[%s]" % name, s, f, ex.line, kind="post")
+            # facts learnt while evaluating the contract itself must not make the path contradictory
+            self.oblige("cover/return-path-after-contract", s, z3.BoolVal(False), ex.line, kind="cover-path")
         return self.obls
 
     def pre_with_pc(self, s):
